@@ -127,6 +127,76 @@ theorem runsFirst_single (limit : Nat) (e : Ev) (he : e.dec = if 0 < limit then 
   have := runsFirst_append (limit := limit) (cur := []) (by intro i x hx; simp at hx) e (by simpa using he)
   simpa using this
 
+theorem runsFirst_zero {w : List Ev} (h : RunsFirst 0 w) : ∀ e ∈ w, e.dec = .reject := by
+  intro e he
+  obtain ⟨i, hi, rfl⟩ := List.getElem_of_mem he
+  simpa using h i w[i] (List.getElem?_eq_getElem hi)
+
+theorem runsFirst_tail {limit : Nat} {e : Ev} {r : List Ev} (h : RunsFirst (limit + 1) (e :: r)) : RunsFirst limit r := by
+  intro i x hx
+  have := h (i + 1) x (by simpa using hx)
+  simpa using this
+
+/-- a window that runs exactly its first `limit` calls has at most `limit` runs … -/
+theorem countP_ran_le : ∀ (limit : Nat) (w : List Ev), RunsFirst limit w → w.countP (·.ran) ≤ limit := by
+  intro limit
+  induction limit with
+  | zero =>
+    intro w h
+    rw [Nat.le_zero, List.countP_eq_zero]
+    intro e he
+    simp [Ev.ran, runsFirst_zero h e he]
+  | succ l ih =>
+    intro w h
+    cases w with
+    | nil => simp
+    | cons e r =>
+      have := ih r (runsFirst_tail h)
+      rw [List.countP_cons]
+      split <;> omega
+
+/-- … and nothing runs after its first rejection -/
+theorem after_rejection : ∀ (limit : Nat) (w : List Ev), RunsFirst limit w → ∀ e ∈ w.dropWhile (·.ran), e.dec = .reject := by
+  intro limit
+  induction limit with
+  | zero =>
+    intro w h e he
+    exact runsFirst_zero h e (List.dropWhile_subset _ he)
+  | succ l ih =>
+    intro w h
+    cases w with
+    | nil => simp
+    | cons x r =>
+      have hx : x.dec = .run := by simpa using h 0 x rfl
+      have : x.ran = true := by simp [Ev.ran, hx]
+      rw [List.dropWhile_cons, if_pos this]
+      exact ih r (runsFirst_tail h)
+
+theorem windowHolds_of_runsFirst {limit : Nat} {w : List Ev} (h : RunsFirst limit w) : windowHolds limit w = true := by
+  unfold windowHolds
+  rw [Bool.and_eq_true]
+  refine ⟨by simpa using countP_ran_le limit w h, ?_⟩
+  rw [List.all_eq_true]
+  intro e he
+  simpa using after_rejection limit w h e he
+
+/-- the windows of a trace contain every call exactly once, in order -/
+theorem windows_flatten (period ttl : Nat) : ∀ (tr cur : List Ev), (windows period ttl cur tr).flatten = cur ++ tr := by
+  intro tr
+  induction tr with
+  | nil =>
+    intro cur
+    unfold windows
+    cases cur <;> simp
+  | cons e rest ih =>
+    intro cur
+    unfold windows
+    split
+    · rw [ih]; simp
+    · split
+      · rename_i h; rw [ih]; simp [List.isEmpty_iff.mp h]
+      · rw [List.flatten_cons, ih]; simp
+
 /-- the counter cell mirrors the current window `cur` of the trace -/
 def Cell (p : Params) (t : TtlMap) (cur : List Ev) : Prop :=
   (cur = [] → t.m key = none) ∧
